@@ -45,6 +45,15 @@ Definition wait_kind_ok (m : model) : bool :=
                          | _ => true end
                      | _ => true end) (m_methods m).
 
+(* a call is complete when the method has run: the handle method of a user method that declares a return type (even `-> ()`)
+   waits for the reply of its own call, one without a return type is fire-and-forget *)
+Definition reply_kind_ok (m : model) : bool :=
+  forallb (fun lm => match lm_body lm with
+                     | BRef rb =>
+                         let waits := match rb_tail rb with TWait _ _ _ => true | _ => false end in
+                         Bool.eqb waits (mem (lm_name lm) (m_user_ret m))
+                     | _ => true end) (m_methods m).
+
 (* play: blocking receive loop on its receiver parameter, inline dispatch of every message on its actor parameter *)
 Definition play_ok (m : model) : bool :=
   match m_play m with
@@ -82,7 +91,7 @@ Definition ctor_ok (m : model) : bool :=
 
 Definition wf_struct (m : model) : bool :=
   is_nil (m_unknown m) && forallb arm_known (m_arms m) && forallb (fun lm => body_known (lm_body lm)) (m_methods m)
-  && play_ok m && ctor_ok m && nodup_str (map lm_name (m_methods m)) && nodup_str (map v_name (m_variants m)) && await_ok m && wait_kind_ok m.
+  && play_ok m && ctor_ok m && nodup_str (map lm_name (m_methods m)) && nodup_str (map v_name (m_variants m)) && await_ok m && wait_kind_ok m && reply_kind_ok m.
 
 (* C08: every handle method sends with a blocking send on the handle's own sender; the capacity is a literal *)
 Definition wf_C08 (m : model) : bool := wf_struct m && all_blocking (elab m).
